@@ -138,6 +138,13 @@ Proof.
 Qed.
 Print Assumptions C19_signed_literal_end_to_end.
 
+(** eval_i64 literals end to end: exactly the integer, or Err when it exceeds i64::MAX (for digit strings of any length) *)
+Theorem C19_i64_literal_end_to_end :
+  forall (L : libm) (p : Z) ds, ds <> [] -> forallb is_digit ds = true ->
+    run_i64 L ds p = match parse_i64 ds with Some z => Ok z | None => Err end.
+Proof. exact i64_literal_run. Qed.
+Print Assumptions C19_i64_literal_end_to_end.
+
 Theorem C19_number_literal :
   forall t im, conv_num (LNum t im) = if has_point t then option_map Flt (parse_f64 t) else option_map Int (parse_i64 t).
 Proof. reflexivity. Qed.
